@@ -114,6 +114,8 @@ def is_kind_rules(facts, rep, w, D):
                 if m[0] == "call" and sname(m[1]) == "metadata" and pr.is_arg(m[2][0], 0) and c[0] == "agg" and c[2] == want and \
                         pr.g_exists(gs, lambda t: pr.is_arg(t, 0), True):
                     okcmp = True
+            elif v == ("int", 1) and pr.g_type(gs, lambda t: pr.is_arg(t, 0), want) and pr.g_exists(gs, lambda t: pr.is_arg(t, 0), True):
+                okcmp = True        # `matches!(metadata.file_type, Want)`: `true` on the arm of the wanted variant
         # ... and every *other* answer is that comparison: in particular a failed metadata lookup is an error, not "false"
         others = []
         for ct, _, bb in pr.inter.ret_cases(b):
@@ -123,6 +125,12 @@ def is_kind_rules(facts, rep, w, D):
             if v == ("int", 0) and pr.g_exists(pr.guards(cb, bb), lambda t: pr.is_arg(t, 0), False):
                 continue
             if v[0] == "call" and v[1] == "PartialEq::eq":
+                continue
+            # the match form of the comparison: `true` under the wanted variant, `false` under the other one
+            gs_ = pr.guards(cb, bb)
+            if v == ("int", 1) and pr.g_type(gs_, lambda t: pr.is_arg(t, 0), want):
+                continue
+            if v == ("int", 0) and pr.g_type(gs_, lambda t: pr.is_arg(t, 0), "Directory" if want == "File" else "File"):
                 continue
             others.append(fmt(v)[:50])
         n += 1
@@ -389,6 +397,22 @@ def run(facts, rep, tier, ctx):
         for o in scratch.obligations:
             if o["rule"] in ("R18.3", "R18.5"):
                 rep.ob("R05.7", o["fn"], o["key"].split("|")[2], o["ok"], o["detail"], o["loc"])
+    # R05.8 what exists() reports stays listed by its parent under concurrent use too: check and mutation of the in-memory backends
+    # share one critical section (a parent checked under an earlier lock can be removed before the insert: the child exists, its
+    # parent does not, no listing reaches it) — C16's R16.1 / R16.5 / R16.6
+    from . import c16 as _c16
+    scr8 = Report("z")
+    _c16.run(facts, scr8, tier, ctx)
+    for o in scr8.obligations:
+        r_ = o["rule"]
+        if r_.replace("A/", "") in ("R16.1", "R16.5", "R16.6"):
+            rep.ob(("A/" if r_.startswith("A/") else "") + "R05.8", o["fn"], o["key"].split("|")[2], o["ok"], o["detail"], o["loc"])
+    # R05.9 a directory that still shows entries in the merged listing cannot be removed: the overlay's remove_dir rows of Table U
+    # (a hidden directory whose lower-layer children stay reachable exists for exists/metadata but is listed by no parent)
+    for w9 in (ws, World(facts, True)):
+        if w9.present():
+            from .c10 import _Prefixed as _Pf9
+            c09.table_u(facts, rep if not w9.asyncw else _Pf9(rep, "A"), w9, "R05.9", only=("remove_dir",))
     # the async port has its own copies of all the observers
     wa = World(facts, True)
     rep.ob("R05.A", "async_vfs", "async world present", wa.present(), "", "")
